@@ -144,18 +144,55 @@ def _only_write_atomic(target_of, skipped_if=None):
     return clause
 
 
+def _legend_payload_and_location(ex, st, post, result):
+    import z3
+    from pyvc.values import eq, VStr
+    from pyvc.builtins import os_path_join
+    lg = post.env['legend']
+    h = st.heap[post.env['self'].ref]
+    wa = [e for i, e in T.evs(st, 'write_atomic')]
+    if not wa:
+        return
+    ab = [(i, e) for i, e in T.evs(st, 'as_buffer')]
+    sk = [(i, e) for i, e in T.evs(st, 'seek')]
+    rd = [(i, e) for i, e in T.evs(st, 'read')]
+    iw = st.trace.index(wa[0])
+    ok = len(ab) == 1 and len(rd) == 1 and rd[0][1].recv is not None and rd[0][1].recv.t.eq(ab[0][1].result.t) \
+        and not rd[0][1].args and wa[0].args[1] is rd[0][1].result and ab[0][0] < rd[0][0] < iw
+    rewound = [1 for i, e in sk if ok and ab[0][0] < i < rd[0][0] and e.recv is not None and e.recv.t.eq(ab[0][1].result.t)
+               and len(e.args) == 1 and e.args[0].conc() == 0] if ok else []
+    yield ('legend_payload_is_the_whole_image', z3.BoolVal(bool(ok and rewound)),
+           'what is written is buffer.read() of the legend image buffer after buffer.seek(0): the complete encoded image, not the '
+           'rest after some earlier read position')
+    lh = [e for i, e in T.evs(st, 'legend_hash')]
+    sl = [e for e in st.trace if e.name == 'setattr:location']
+    loc0 = ex.opaque_field_at(st, st.trace[0], lg, 'location') if st.trace else None
+    if sl:
+        ok = len(sl) == 1 and len(lh) == 1 and len(lh[0].args) == 2
+        g = z3.BoolVal(bool(ok))
+        if ok:
+            g = z3.And(g, eq(lh[0].args[0], ex.opaque_field_at(st, lh[0], lg, 'id')),
+                       eq(lh[0].args[1], ex.opaque_field_at(st, lh[0], lg, 'scale')),
+                       sl[0].args[1].t == z3.Concat(os_path_join(ex, st, [h['cache_dir'], lh[0].result], {}, None)[0][1].t, z3.StringVal('.'),
+                                                      h['file_ext'].t))
+        yield ('legend_location_from_id_and_scale', g,
+               'a legend without location is stored at join(cache_dir, legend_hash(id, scale)) + "." + file_ext - the same path '
+               'load() looks at')
+
+
 cls('mapproxy.cache.legend:LegendCache', fields=dict(cache_dir='str', file_ext='str', directory_permissions='opaque',
                                                      file_permissions='opaque'))
 contract('mapproxy.cache.legend:LegendCache.store', props=['C06'],
          types=dict(legend='opaque'), returns='none', default_callee='opaque',
-         opaque_fields={'location': 'opt[str]', 'stored': 'opaque'},
+         opaque_fields={'location': 'opt[str]', 'stored': 'opaque', 'id': 'opaque', 'scale': 'opaque'}, stable_fields=['id', 'scale'],
          opaque_spec={'legend_hash': {'returns': 'str', 'pure': True}, 'ensure_directory': {'pure': True}, 'as_buffer': {'pure': True},
                       'ImageOptions': {'pure': True}, 'seek': {'pure': True}, 'read': {'pure': True}, 'exists': {'returns': 'bool', 'pure': True},
                       'write_atomic': {'raises': ['OSError'], 'pure': True}, 'chmod': {'pure': True}},
          opaque=['write_atomic', 'legend_hash', 'ensure_directory'],
          raises={'OSError': True, 'ValueError': True},
          trace=[_only_write_atomic(lambda ex, st, post, e: ex.opaque_field_at(st, e, post.env['legend'], 'location').val,
-                                   skipped_if=lambda ex, st, post: ex.truth(st, ex.opaque_field(st, post.env['legend'], 'stored')))])
+                                   skipped_if=lambda ex, st, post: ex.truth(st, ex.opaque_field(st, post.env['legend'], 'stored'))),
+                _legend_payload_and_location])
 
 cls('mapproxy.seed.util:ProgressStore', fields=dict(filename='str', status='opaque'))
 contract('mapproxy.seed.util:ProgressStore.write', props=['C06'],
